@@ -35,6 +35,18 @@ CHECKS = {
  "C22": dict(cat="exploration", tech="property testing with a snapshot invariant: deep snapshot of all arguments before/after generated API calls (valid and invalid inputs)",
    text="Generated calls to run, run_sdmx, semantic_analysis, validate_dataset, prettify and generate_sdmx with DataFrames of many shapes (BOM/extra/missing columns, dtypes, indexes), dict/list structures (both key spellings), value domains, routines and scalar values; arguments must be unchanged after the call whether it returns or raises.",
    note="Snapshots compare columns, dtypes, index and repr of every cell; URL datapoints (network) are not reachable in the sandbox.", ref="§3 C22"),
+ "C03": dict(cat="exploration", tech="differential property testing against refvtl (exact rational aggregates) over Hypothesis-generated aggregation statements",
+   text="sum/avg/count/min/max/median/stddev/var with group by / group except / no grouping, having, standalone and in aggr clauses, over generated data with nulls, repeated keys, all-null and single-row groups; one datapoint per group in both directions.",
+   note="count only over data without null measures, having only on single-measure operands, aggregates of empty ungrouped datasets not generated (not settled by the offline sources).", ref="§3 C03"),
+ "C04": dict(cat="exploration", tech="differential property testing against refvtl (relational join) over Hypothesis-generated joins of 2-3 datasets",
+   text="inner/left/full joins with equal or nested identifier sets, partial key overlap, shared measure names disambiguated by alias, optional using and a filter/calc/keep/drop/rename/aggr body are compared with a reference relational join (keys, multiplicities, nulls for the missing side).",
+   note="cross_join and using on non-common identifiers are not generated.", ref="§3 C04"),
+ "C05": dict(cat="exploration", tech="differential property testing against refvtl over Hypothesis-generated set expressions (2-4 operands)",
+   text="union (first operand wins), intersect over ALL operands, setdiff, symdiff over structurally equal generated datasets with arbitrary key overlap and conflicting measures, including operands that are expressions.",
+   note="small inputs; large multi-threaded inputs are C15's subject.", ref="§3 C05"),
+ "C06": dict(cat="exploration", tech="differential property testing against refvtl (literal frame evaluation) + metamorphic shuffle of input rows",
+   text="16 analytic functions at dataset level and inside calc, partitions, total orderings, data-points/range windows with offsets 0-3 and unbounded bounds, lag/lead offsets 1-3; result recomputed literally per datapoint and re-run on shuffled input.",
+   note="orderings are total by construction; a framed function without order by is generated only with the explicit whole-partition window; count only over non-null data.", ref="§3 C06"),
 }
 NOT_YET = "check not built yet in this session (work in progress, see DESIGN.md §5)"
 
